@@ -541,7 +541,15 @@ func c35SumsRunes(fn *ssa.Function) (bool, string) {
 		end := false
 		for _, b := range fn.Blocks {
 			if iff, ok := b.Instrs[len(b.Instrs)-1].(*ssa.If); ok {
-				if cmp, isC := iff.Cond.(*ssa.BinOp); isC && cmp.Op == token.LSS && cmp.X == ssa.Value(idx) {
+				raw, isC := iff.Cond.(*ssa.BinOp)
+				if !isC {
+					continue
+				}
+				cmp, _ := engine.CmpOf(raw)
+				if cmp.Op == token.GTR { // len(s) > i is i < len(s)
+					cmp = cmp.Swap()
+				}
+				if cmp.Op == token.LSS && cmp.X == ssa.Value(idx) {
 					if lc := engine.CallOf(cmp.Y); lc != nil && engine.CalleeID(lc.Common()) == "builtin.len" && engine.Unwrap(lc.Common().Args[0]) == ssa.Value(fn.Params[0]) {
 						end = true
 					}
